@@ -987,7 +987,11 @@ func Run(tier, replay string) {
 	rng := rand.New(rand.NewSource(mbt.Seed()))
 
 	// (S) the design-level model
-	t := mbt.MustTLC(mbt.TLCOpts{Spec: "Operands", Cfg: "Operands.cfg", Timeout: 15 * time.Minute})
+	calls := map[string]string{}
+	if tier == "thorough" {
+		calls["MaxCalls"] = "4" // histories of four API calls (quick: three)
+	}
+	t := mbt.MustTLC(mbt.TLCOpts{Spec: "Operands", Cfg: "Operands.cfg", Consts: calls, Timeout: 15 * time.Minute})
 	if len(t.Violated) > 0 {
 		mbt.Infra("Operands.tla with AsImplemented=FALSE violates %v: specification error", t.Violated)
 	}
